@@ -32,3 +32,5 @@ import LyModel.Props.C01LybTree
 #print axioms LyModel.Props.C01LybTree.exPrint
 #print axioms LyModel.Props.C01LybTree.lyb_tree_print_total_fails
 #print axioms LyModel.Props.C01LybTree.lyb_tree_roundtrip_tagged_fails
+#print axioms LyModel.Props.C01LybTree.lyb_meta_skip_fixed
+#print axioms LyModel.Props.C01LybTree.lyb_meta_skip_fails
